@@ -279,6 +279,12 @@ pub fn exec_plain(req: &Req, api: &Arc<InternalAPI>, node: &SimNode, op: &Op) ->
             st.faults.down_at_rpc = Some(st.rpc_count + *rpcs as u64);
             "up-for-a-moment".into()
         }
+        Op::NodeUpBehind { k } => {
+            let mut st = node.lock();
+            st.fall_behind(*k);
+            st.faults.down = false;
+            "up-behind".into()
+        }
         Op::Evict(t) => {
             node.lock().evict(&req.tx_of(t).compute_txid());
             "evicted".into()
@@ -705,6 +711,8 @@ fn run_scenario_here(sc: &Scenario, strategy: Option<Strategy>, order: Option<&[
                         st.faults.down = false;
                         st.faults.down_at_rpc = None;
                         st.faults.down_at_bs = None;
+                        // a node that came back behind its former tip has caught up by now
+                        st.catch_up();
                     }
                     (ctx.poll)();
                     (ctx.poll)();
